@@ -174,12 +174,12 @@ def run : List String → Option String
     | some s => some (jsShell (toJs n { s with handlers := s.handlers.map fun h => { h with body := [] } }))
   -- readjs <hex text> -> ok \t <shell> { \t <function> } | error   (strict: the whole text must be valid)
   | ["readjs", htext] => do
-    match readJs (← charsOfHex htext) with
+    match readJsStrict (← charsOfHex htext) with
     | some tops => some ("\t".intercalate ("ok" :: jsShell tops :: (jsFuncs tops).map fun f => str f.render))
     | none => some "error"
   -- readjsfn <m|f> <hex text of one method / function> -> rendered function | error
   | ["readjsfn", kind, htext] => do
-    match readJsFunc (kind == "m") (← charsOfHex htext) with
+    match readJsFuncStrict (kind == "m") (← charsOfHex htext) with
     | some f => some (str f.render)
     | none => some "error"
   -- printread <hex script sexpr>: reference printer, then the strict reference reader -> same | differ <hex text> | unreadable <hex text>
